@@ -3,7 +3,7 @@
 use vstd::prelude::*;
 use vstd::std_specs::iter::IteratorSpec;
 use vstd::std_specs::ops::*;
-use core::ops::{Add, AddAssign, Sub, SubAssign, Neg};
+use core::ops::{Add, AddAssign, Sub, SubAssign, Neg, Mul, Div};
 verus! {
 //@ include prelude/core.rs
 //@ include prelude/std_specs.rs
@@ -38,6 +38,25 @@ impl BigUint {
 //@ stub u_int/lcm
 //@ stub u_int/gcd_lcm
 //@ stub u_int/is_multiple_of
+//@ stub u_modpow/is_even
+}
+impl DivSpecImpl<&BigUint> for &BigUint {
+    open spec fn obeys_div_spec() -> bool { false }
+    open spec fn div_req(self, rhs: &BigUint) -> bool { self.wf() && rhs.wf() && (!mp() ==> rhs.v() != 0) }
+    open spec fn div_spec(self, rhs: &BigUint) -> BigUint { arbitrary() }
+}
+impl Div<&BigUint> for &BigUint {
+    type Output = BigUint;
+//@ stub u_divapi/div_ref_ref
+}
+impl MulSpecImpl<&BigUint> for BigUint {
+    open spec fn obeys_mul_spec() -> bool { false }
+    open spec fn mul_req(self, rhs: &BigUint) -> bool { self.wf() && rhs.wf() }
+    open spec fn mul_spec(self, rhs: &BigUint) -> BigUint { arbitrary() }
+}
+impl Mul<&BigUint> for BigUint {
+    type Output = BigUint;
+//@ stub u_mul/mul_vr
 }
 impl AddAssignSpecImpl<u32> for BigUint {
     open spec fn obeys_add_assign_spec() -> bool { false }
@@ -87,6 +106,19 @@ pub struct BigInt {
 //@ end
 //@ include prelude/bigint_view.rs
 //@ include prelude/bigint_core_stubs.rs
+// local model of num_integer::ExtendedGcd<A> (external crate): the same three public fields
+pub struct ExtendedGcd<A> {
+    pub gcd: A,
+    pub x: A,
+    pub y: A,
+}
+/// Bezout: a*x + b*y == g == gcd(|a|, |b|) >= 0
+pub open spec fn egcd_ok(a: int, b: int, e: ExtendedGcd<BigInt>) -> bool {
+    &&& e.gcd.wfi() && e.x.wfi() && e.y.wfi()
+    &&& e.gcd.iv() >= 0
+    &&& is_gcd(uabs(a), uabs(b), e.gcd.iv() as nat)
+    &&& a * e.x.iv() + b * e.y.iv() == e.gcd.iv()
+}
 //@ include prelude/divspec.rs
 impl vstd::std_specs::convert::FromSpecImpl<BigUint> for BigInt {
     open spec fn obeys_from_spec() -> bool { false }
@@ -154,6 +186,12 @@ pub proof fn lemma_floor_multiples_all(a: int, b: int)
 
 impl BigInt {
 //@ stub i_div/mod_floor
+    //@ assume num_integer::<BigInt as Integer>::extended_gcd : default method of the external trait (Euclid's algorithm over the BigInt operators); contract: Bezout identity with a non-negative gcd
+    #[verifier::external_body]
+    fn extended_gcd(&self, other: &BigInt) -> (r: ExtendedGcd<BigInt>)
+        requires self.wfi(), other.wfi()
+        ensures egcd_ok(self.iv(), other.iv(), r)
+    { unimplemented!() }
     // contract-only re-homing of `impl Integer for BigInt` (num_integer::Integer is an external trait)
 //@ extract src/bigint.rs :: impl Integer for BigInt :: fn gcd props=C13 label=bigint_gcd
     fn gcd(&self, other: &BigInt) -> /*+*/(r: /*-*/BigInt/*+*/)/*-*/
@@ -210,6 +248,66 @@ impl BigInt {
         proof { lemma_sgn_mul(self.sign, self.data.v()); lemma_sgn_mul(other.sign, other.data.v()); }
 //+}
         self.data.is_multiple_of(&other.data)
+    }
+//@ end
+
+//@ extract src/bigint.rs :: impl Integer for BigInt :: fn extended_gcd_lcm rules=R0,R3n6 tysub=num_integer::ExtendedGcd<BigInt>=>ExtendedGcd<BigInt> props=C13,C14 label=bigint_extended_gcd_lcm
+    fn extended_gcd_lcm(&self, other: &BigInt) -> /*+*/(r: /*-*/(ExtendedGcd<BigInt>, BigInt)/*+*/)/*-*/
+//+{
+        requires self.wfi(), other.wfi()
+        ensures egcd_ok(self.iv(), other.iv(), r.0), r.1.wfi(), r.1.iv() >= 0,
+            is_lcm_via_gcd(uabs(self.iv()), uabs(other.iv()), r.1.iv() as nat)
+//+}
+    {
+//+{
+        proof {
+            lemma_sgn_mul(self.sign, self.data.v()); lemma_sgn_mul(other.sign, other.data.v());
+            lemma_gcd_nonzero(self.data.v(), other.data.v()); lemma_lcm_all(self.data.v(), other.data.v());
+            lemma_divides_zero(self.data.v()); lemma_divides_zero(other.data.v());
+        }
+//+}
+        let egcd = self.extended_gcd(other);
+//+{
+        proof { lemma_sgn_mul(egcd.gcd.sign, egcd.gcd.data.v()); }
+//+}
+        let lcm = if egcd.gcd.is_zero() {
+            Self::ZERO
+        } else {
+            BigInt::from(Mul::mul(Div::div(&self.data, &egcd.gcd.data), &other.data))
+        };
+        (egcd, lcm)
+    }
+//@ end
+
+//@ extract src/bigint.rs :: impl Integer for BigInt :: fn divides props=C13 label=bigint_divides
+    fn divides(&self, other: &BigInt) -> /*+*/(r: /*-*/bool/*+*/)/*-*/
+//+{
+        requires self.wfi(), other.wfi()
+        ensures r == divides(uabs(other.iv()), uabs(self.iv()))
+//+}
+    {
+        self.is_multiple_of(other)
+    }
+//@ end
+
+//@ extract src/bigint.rs :: impl Integer for BigInt :: fn is_even props=C13 label=bigint_is_even
+    fn is_even(&self) -> /*+*/(r: /*-*/bool/*+*/)/*-*/
+//+{
+        requires self.wfi()
+        ensures r == (self.iv() % 2 == 0)
+//+}
+    {
+//+{
+        proof {
+            lemma_sgn_mul(self.sign, self.data.v());
+            let m = self.data.v() as int;
+            assert(((-m) % 2 == 0) == (m % 2 == 0)) by {
+                vstd::arithmetic::div_mod::lemma_fundamental_div_mod(m, 2);
+                vstd::arithmetic::div_mod::lemma_fundamental_div_mod(-m, 2);
+            }
+        }
+//+}
+        self.data.is_even()
     }
 //@ end
 
